@@ -2,14 +2,16 @@
    Statements only; every proof is `exact <lemma of JacobianProofs>`.  K is any commutative ring (ring_theory hypothesis);
    `ev`/`evD` below are evaluation in K and in the dual numbers K[eps]/(eps^2). *)
 From Coq Require Import List ZArith QArith Qcanon Bool Arith Ring.
-From PV Require Import Jacobian JacobianProofs.
+From Coq Require Import Reals.
+From Coquelicot Require Import Coquelicot.
+From PV Require Import Jacobian JacobianProofs JacobianReal.
 Import ListNotations.
 Local Open Scope nat_scope.
 
 (* D is the derivative: evaluating e over dual numbers at the point r with tangent direction x yields (value, value of D e x).
    For polynomial e (polyb e = true) no function rule enters: this is the formal derivative, with no assumption at all;
    for sigmoid/absv/exp/sin/cos/tanh the dual extension uses the rule PyRates/sympy apply (dfnI); that these
-   rules are the derivatives of the real functions is not proved here (stretch, K = R with Coquelicot). *)
+   rules are the derivatives of the real functions is C12_rules_are_derivatives / C12_D_correct_real below (K = R). *)
 Theorem C12_D_is_derivative : forall (K : Type) (O : ops K),
   ring_theory (o0 O) (o1 O) (oadd O) (omul O) (osub O) (oopp O) eq ->
   forall (r : atom -> K) (x : atom) (e : expr K),
@@ -95,6 +97,26 @@ Theorem C12_jhist_column_preD08_refuted : exists s r, wf s = true /\
   no_delayed_factor_in_j0 QcO s = true /\ jac_impl_preD08 QcO s r <> jac_spec QcO s r.
 Proof. exact preD08_refuted. Qed.
 Print Assumptions C12_jhist_column_preD08_refuted.
+
+(* ---- K := R (real analysis; these three statements depend on the standard library's real-number axioms) ----
+   every function rule D uses (identity -> 1, sigmoid -> s(1-s), exp -> exp, sin -> cos, cos -> -sin, tanh -> 1 - tanh^2) is the
+   derivative of the function *)
+Theorem C12_rules_are_derivatives : forall f v, smoothf f = true -> is_derive (R_fn f) v (dfnI RO f v).
+Proof. exact fn_derive. Qed.
+Print Assumptions C12_rules_are_derivatives.
+
+(* D is the derivative: v |-> eval (r with x := v) e is differentiable at r x with derivative eval r (D e x), for every expression
+   built from + - * neg ^n, sigmoid, exp, sin, cos, tanh (absv/sign excluded: not differentiable at 0) *)
+Theorem C12_D_correct_real : forall (r : atom -> R) x (e : expr R), smooth e = true ->
+  is_derive (fun v => eval RO (fun c => c) (upd r x v) e) (r x) (eval RO (fun c => c) r (D RO e x)).
+Proof. exact D_correct. Qed.
+Print Assumptions C12_D_correct_real.
+
+Theorem C12_D_correct_real_expanded : forall l (r : atom -> R) x (e : expr R), smooth (expand l e) = true ->
+  is_derive (fun v => eval RO (fun c => c) (run_algs RO (fun c => c) l (upd r x v)) e) (r x)
+            (eval RO (fun c => c) r (D RO (expand l e) x)).
+Proof. exact D_correct_expanded. Qed.
+Print Assumptions C12_D_correct_real_expanded.
 
 (* non-vacuity: a two-node model with three state variables, two intermediates (one of them an edge input with a delayed
    edge), a parameter delay on the second state variable satisfies all hypotheses; its matrices have non-diagonal entries *)
